@@ -351,6 +351,13 @@ func (h *verifCacheMonH) do(op verifCacheOp, api int) {
 
 func verifCacheMonSetup(t *testing.T) *verifCacheMonH {
 	verifCacheEmitter = verifOpen(t)
+	if !cache.VerifCacheWB {
+		// the cleaner of core/stores/cache cannot be driven on this tree (its internals do not match the white-box
+		// part of the world helper): without it no sound history can be recorded, the driver does not run
+		verifCacheEmitter.Emit(verifEv{"e": "info", "skipped": "C06 drivers need to drive the cleaner wheel of core/stores/cache"})
+		verifCacheEmitter.Close()
+		t.Skip("white-box part of the C06 world helper unavailable")
+	}
 	h := &verifCacheMonH{rnd: verifRand(608)}
 	t.Cleanup(func() {
 		if h.w != nil {
